@@ -1,7 +1,7 @@
 (* C17 property theorems: statements only; every proof is [exact lemma]. *)
 From Coq Require Import String.
 From Gv Require Import lib.Bytes lib.Gql C17.Util C17.ValueSyntax C17.Base C17.Model C17.Spec
-  C17.ProofsValue C17.ProofsSpec C17.ProofsMain C17.Witness.
+  C17.ProofsValue C17.ProofsFuel C17.ProofsJson C17.ProofsSpec C17.ProofsMain C17.Witness.
 
 (* the theorems' hypotheses are satisfiable by a non-trivial schema (all type kinds, an interface,
    wrapping depth 3, default values of every kind, deprecations), on which both claims hold *)
@@ -129,3 +129,13 @@ Print Assumptions c17_schema_equiv_checker.
 Theorem c17_typeref_checker : forall W t r, typeref_matches_b W t r = true <-> typeref_matches W t r.
 Proof. exact typeref_matches_iff. Qed.
 Print Assumptions c17_typeref_checker.
+
+(* the converter's value parser never runs out of fuel (its third outcome is unreachable) *)
+Theorem c17_parse_text_fuel : forall s, parse_text s <> PFuel.
+Proof. exact parse_text_fuel. Qed.
+Print Assumptions c17_parse_text_fuel.
+
+(* the reader used to run the checkers on the implementation's JSON inverts the JSON form *)
+Theorem c17_decode_encode : forall d, decode_data (idata_json d) = Some d.
+Proof. exact decode_encode. Qed.
+Print Assumptions c17_decode_encode.
